@@ -16,3 +16,46 @@ package pod_info
 //@   ensures result == taskStatusOf(pod, bindRequest != nil)
 //@   ensures [total] pod_status.isStatus(result)
 //@ end
+
+//@ import gr "github.com/NVIDIA/KAI-scheduler/pkg/binder/plugins/gpusharing/gpu-request"
+
+// the GPU part of the pod's request as the scheduler sees it
+//@ define gpuUnchanged(pi *PodInfo) bool = pi.ResReq.portion == old(pi.ResReq.portion) && pi.ResReq.count == old(pi.ResReq.count) && pi.ResReq.gpuMemory == old(pi.ResReq.gpuMemory) && pi.ResReq.migResources == old(pi.ResReq.migResources) && pi.ResReq.draGpuCounts == old(pi.ResReq.draGpuCounts)
+
+//@ define gpuUnchanged0(pi *PodInfo) bool = pi.ResReq.portion == old(pi.ResReq.portion) && pi.ResReq.count == old(pi.ResReq.count) && pi.ResReq.gpuMemory == old(pi.ResReq.gpuMemory) && pi.ResReq.migResources == old(pi.ResReq.migResources)
+
+// legacy MIG pods: an annotation named like a MIG resource replaces the GPU request.  Needed by
+// updatePodAdditionalFields: when no such annotation is applied the GPU request is untouched.
+//@ func (*PodInfo).updateLegacyMigResourceRequestFromAnnotations
+//@   props C19 C10
+//@   ieee
+//@   requires pi != nil && pi.Pod != nil && pi.ResReq != nil
+//@   modifies pi.ResReq.GpuResourceRequirement, pi.IsLegacyMIGtask
+//@   loop 1
+//@     invariant old(pi.IsLegacyMIGtask) ==> pi.IsLegacyMIGtask
+//@     invariant !pi.IsLegacyMIGtask ==> gpuUnchanged(pi)
+//@   ensures old(pi.IsLegacyMIGtask) ==> pi.IsLegacyMIGtask
+//@   ensures [untouched-without-mig-annotation] !pi.IsLegacyMIGtask ==> gpuUnchanged(pi)
+//@ end
+
+// ---- C19 agreement: scheduler's reading of the annotations -----------------------------------------
+//@ define sFracOk(pod *v1.Pod) bool = resources.pfOk(resources.fracStr(pod)) && !(resources.pfVal(resources.fracStr(pod)) <= 0.0) && !(resources.pfVal(resources.fracStr(pod)) > 1.0)
+//@ define sMemOk(pod *v1.Pod) bool = resources.piOk(resources.memStr(pod)) && resources.piVal(resources.memStr(pod)) > 0
+//@ define sCountUsed(pod *v1.Pod) bool = resources.hasCount(pod) && resources.countStr(pod) != "" && resources.piOk(resources.countStr(pod))
+// what admission / the binder plugin accept: gr.ValidateGpuRequests(pod) == nil, by its [exact] postcondition
+//@ define admitted(pod *v1.Pod) bool = !gr.badCombination(pod) && gr.valuesOkCode(pod)
+
+//@ func (*PodInfo).updatePodAdditionalFields
+//@   props C19 C10
+//@   ieee
+//@   requires pi != nil && pi.Pod != nil && pi.ResReq != nil
+//@   requires !pi.IsLegacyMIGtask
+//@   assume !resources.pfOk("") && !resources.piOk("") && !resources.puOk("")
+//@   note strconv: parsing the empty string is a syntax error (documented); an absent annotation is read as ""
+//@   modifies pi.GPUGroups, pi.ResourceReceivedType, pi.ResReq.GpuResourceRequirement, pi.ResourceRequestType, pi.ResReqVector, pi.IsLegacyMIGtask
+// functional description of the scheduler's interpretation (helper level, from the code)
+//@   ensures [sched-fraction] !pi.IsLegacyMIGtask && sFracOk(pi.Pod) ==> pi.ResReq.portion == ite(resources.pfVal(resources.fracStr(pi.Pod)) >= 1.0, 1.0, resources.pfVal(resources.fracStr(pi.Pod))) && pi.ResReq.gpuMemory == ite(sCountUsed(pi.Pod) && sMemOk(pi.Pod), resources.piVal(resources.memStr(pi.Pod)), 0)
+//@   ensures [sched-type-fraction] !pi.IsLegacyMIGtask && sFracOk(pi.Pod) ==> pi.ResourceRequestType == RequestTypeFraction
+//@   ensures [sched-type-memory] !pi.IsLegacyMIGtask && !sFracOk(pi.Pod) && sMemOk(pi.Pod) ==> pi.ResourceRequestType == RequestTypeGpuMemory
+//@   ensures [sched-not-sharing] !pi.IsLegacyMIGtask && !sFracOk(pi.Pod) && !sMemOk(pi.Pod) ==> gpuUnchanged0(pi) && (pi.ResourceRequestType == old(pi.ResourceRequestType) || pi.ResourceRequestType == RequestTypeMigInstance)
+//@ end
